@@ -281,8 +281,9 @@ type extOp struct {
 }
 
 func (w *cworld) applyExt(op extOp) {
-	if op.Op == "recreate-revisions" || op.Op == "orphan-revisions" {
-		// every ControllerRevision: a new incarnation under the same name / no owner any more
+	if op.Op == "recreate-revisions" || op.Op == "orphan-revisions" || op.Op == "relabel-revisions" {
+		// every ControllerRevision: a new incarnation under the same name / no owner any more / extra labels
+		// (Data["labels"], also with orphan-revisions)
 		mdOf := func(o J) J {
 			m, _ := o["metadata"].(map[string]interface{})
 			return m
@@ -297,8 +298,18 @@ func (w *cworld) applyExt(op extOp) {
 			if op.Op == "recreate-revisions" {
 				w.srv.RemoveLive(fmt.Sprint(o["apiVersion"]), "ControllerRevision", ns, name)
 				delete(m, "uid")
-			} else {
+			} else if op.Op == "orphan-revisions" {
 				delete(m, "ownerReferences")
+			}
+			if extra, ok := op.Data["labels"].(J); ok {
+				ls, _ := m["labels"].(map[string]interface{})
+				if ls == nil {
+					ls = map[string]interface{}{}
+					m["labels"] = ls
+				}
+				for k, v := range extra {
+					ls[k] = v
+				}
 			}
 			delete(m, "resourceVersion")
 			w.srv.Seed(o)
